@@ -34,13 +34,89 @@ def make_case(rng, tier):
         meta["stream"] = "polytope-contact"
     elif rng.random() < 0.12:
         s1, s2, meta = gen_extreme(rng)
+    elif rng.random() < 0.1:
+        s1, s2, meta = gen_big_default_clip(rng)
     else:
         s1, s2, meta = nw.gen_pair(rng, tier)
     kw = {}
     far = float(np.linalg.norm(nw.center_of(s1) - nw.center_of(s2))) - nw.feature_size(s1) - nw.feature_size(s2)
-    if far > 250.0 or meta["stream"] == "wide":
+    if meta["stream"] == "big-default-clip":
+        pass                                   # default clipping, centres closer than 300
+    elif far > 250.0 or meta["stream"] == "wide":
         kw["max_distance_squared"] = 1e300     # clipping disabled (property: "or clipping disabled")
     return dict(c1=s1, c2=s2, ops=[dict(fn="gjk_jolt", kw=kw)], meta=meta)
+
+
+def inner_point(spec):
+    """A point of the collider's point set (centre of the primitive, mean of the vertices)."""
+    if spec["kind"] == "mesh":
+        T = np.array(spec["pose"], float)
+        return T[:3, :3] @ np.array(spec["vertices"], float).mean(axis=0) + T[:3, 3]
+    return nw.center_of(spec)
+
+
+CURVED = ["sphere", "ellipsoid", "capsule", "cylinder", "cone", "disk", "ellipse"]
+
+
+def screen_case(rng):
+    k1 = rng.choice(CURVED)
+    k2 = rng.choice(CURVED + ["box", "hull"])
+    s1 = nw.gen_collider(rng, k1, "moderate", spread=1.5, margin_prob=0.0, sizes=None)
+    s2 = nw.gen_collider(rng, k2, "moderate", spread=1.5, margin_prob=0.0, sizes=None)
+    for sp in (s1, s2):
+        for key in ("radius", "length", "height"):
+            if key in sp:
+                sp[key] = rng.uniform(0.05, 0.9)
+        for key in ("radii", "size"):
+            if key in sp:
+                sp[key] = [rng.uniform(0.05, 0.9) for _ in sp[key]]
+    if rng.random() < 0.5:
+        s1, s2 = s2, s1
+    meta = dict(stream="screen", kinds=[s1["kind"], s2["kind"]])
+    meta["L"] = nw.scene_scale([s1, s2])
+    return dict(c1=s1, c2=s2, ops=[dict(fn="gjk_jolt", kw={})], meta=meta)
+
+
+def screen_suspicious(case, r, dirs):
+    """float pre-test of an answer (selection only: the verdict is the Coq checker's)"""
+    if "exc" in r or r.get("a") is None or r["d"] >= MAX_FLOAT * 0.99:
+        return True
+    a, b, d = np.array(r["a"], float), np.array(r["b"], float), float(r["d"])
+    if not (np.all(np.isfinite(a)) and np.all(np.isfinite(b)) and np.isfinite(d)):
+        return True
+    tol = 1e-6 * case["meta"]["L"]
+    if abs(float(np.linalg.norm(a - b)) - d) > tol:
+        return True
+    for sp, x in ((case["c1"], a), (case["c2"], b)):
+        for u in dirs:
+            if float(x @ u) - nw.support_value(sp, u) > tol:
+                return True
+    return False
+
+
+def gen_big_default_clip(rng):
+    """Big shapes (sizes 30..100) a moderate gap apart, DEFAULT clipping: the Minkowski difference
+    extends more than sqrt(max_distance_squared) = 316 along many directions although the pair is much
+    closer than that, so the early-out test must look at the sign of the support value (seeded C01-4)."""
+    for _ in range(20):
+        sizes = [64.0, 80.0, 100.0, 100.0, 10 ** rng.uniform(1.7, 2.0)]
+        s1 = nw.gen_collider(rng, rng.choice(nw.KINDS), "random", spread=1.0, margin_prob=0.0, sizes=sizes)
+        s2 = nw.gen_collider(rng, rng.choice(nw.KINDS), "random", spread=1.0, margin_prob=0.0, sizes=sizes)
+        if rng.random() < 0.4:
+            u = np.array([1.0, 0.0, 0.0])      # the first search direction of the loop is +x
+        elif rng.random() < 0.4:
+            u = np.zeros(3)
+            u[rng.randrange(3)] = rng.choice([-1.0, 1.0])
+        else:
+            u = np.array(nw.rand_unit(rng), float)
+        g = rng.choice([1.0, 10.0, 40.0, 100.0])
+        shift = g + nw.support_value(s2, u) + nw.support_value(s1, -u)
+        s1 = nw.translate_spec(s1, nw.center_of(s2) - nw.center_of(s1) + shift * u)
+        if float(np.linalg.norm(nw.center_of(s1) - nw.center_of(s2))) < 300.0:
+            break
+    meta = dict(stream="big-default-clip", kinds=[s1["kind"], s2["kind"]])
+    meta["L"] = nw.scene_scale([s1, s2])
+    return s1, s2, meta
 
 
 def gen_extreme(rng):
@@ -137,6 +213,25 @@ def run(tier, seed, replay=None):
         for _ in range(n):
             cases.append(make_case(R.rng, tier))
     results = nw.run_cases(PID, cases)
+    if not replay:
+        # Screening stream: many more unit-scale pairs of curved colliders are only RUN; a float test
+        # (|a-b| against d, support-plane distance of a and b to their colliders over 60 directions)
+        # selects the suspicious answers, and only those are submitted to the Coq checker below.  This
+        # reaches rare arms of the closest-point reconstruction (sliver final simplices, ~0.2 % of
+        # pairs) that a few hundred certified cases do not (seeded change C01-3).
+        ns = 4000 if tier == "quick" else 30000
+        scr = [screen_case(R.rng) for _ in range(ns)]
+        sres = nw.run_cases(PID, scr, tag="screen")
+        dirs = [np.array(nw.rand_unit(R.rng), float) for _ in range(60)]
+        picked = 0
+        for c, rr in zip(scr, sres):
+            if screen_suspicious(c, rr[0], dirs) and picked < 40:
+                picked += 1
+                c["meta"]["stream"] = "screen-suspicious"
+                cases.append(c)
+                results.append(rr)
+        R.cov["screened_only_by_float_test"] = ns - picked
+        R.cov["screen_suspicious_submitted_to_checker"] = picked
     R.cov["evaluations"] = len(cases)
     exprs, idx = [], []
     clipped = 0
@@ -153,6 +248,11 @@ def run(tier, seed, replay=None):
             kw = c["ops"][0].get("kw", {})
             if kw.get("max_distance_squared", CLIP) > 1e200:
                 R.failure("clipped although clipping was disabled", c, site="gjk_distance_jolt")
+                continue
+            # two points of the colliders closer than 316 mean: not beyond the clip distance
+            if float(np.linalg.norm(inner_point(c["c1"]) - inner_point(c["c2"]))) < 316.0:
+                R.failure("result clipped (MAX_FLOAT) although two points of the colliders are closer than "
+                          "sqrt(max_distance_squared)", c, site="gjk_distance_jolt")
                 continue
             # must really be farther than sqrt(max_distance_squared): certify with the centre direction
             nvec = (nw.center_of(c["c2"]) - nw.center_of(c["c1"])).tolist()
